@@ -45,6 +45,7 @@ func checkC05(c *core.Ctx, r *core.Report) {
 		"(1) comparator exactness — every ordering function handed to sort.Slice/SliceStable/sort.Sort, IQR.Sort and IQR merging (and the sort command's less functions) is collected from the call sites, and no function reachable from it over static calls is a tolerance equality (|a-b| < eps) or converts a dynamically typed column value between uint64 and int64 (which wraps at 2^63): such a comparator is not the numeric order, so adjacent output can be out of order; " +
 		"(7) SIBLING — the parser that ranks a string as numeric in getRank is the parser the comparison converts it with; " +
 		"(8) every compareValues call sits inside a whole loop over the sort elements (no ordering decision on one key alone); " +
+		"(9) BOUND — a sort's unsigned row limit is clamped before it is converted to a signed count and handed on (no limit = maximum unsigned value); " +
 		"(6) the merger that joins the sort-index and the plain sub-searcher of a pushed-down sort is configured from a private copy of the sort expression whose row limit is the maximum (the plain stream is not in sort-key order, so the merger must not truncate); " +
 		"(2) SIBLING — sortProcessor.less and lessDirectRead decide through the same compareValues; " +
 		"(4) the sort-index search's decision to stop at the limit is control-dependent on the number of sort keys (the index orders by the first key only); " +
@@ -149,6 +150,7 @@ func checkC05(c *core.Ctx, r *core.Report) {
 	c05MergeLimit(c, r)
 	c05RankParser(c, r)
 	c05AllKeys(c, r)
+	c05LimitConversion(c, r)
 
 	// ---------------------------------------------------------------- (2)
 	cv := c.Obj(pkgProcessor, "compareValues")
@@ -692,4 +694,92 @@ func c05AllKeys(c *core.Ctx, r *core.Report) {
 		}
 	}
 	r.Floor("ORDER", "compareValues call sites", n, 2)
+}
+
+// c05LimitConversion — (9): a row limit is an unsigned 64-bit number and "no limit" is its maximum (the SPL parser
+// turns `sort 0` into math.MaxUint64).  Converted to a signed int without a clamp it becomes -1; handed on as a count
+// it selects the "few rows" code path with a negative size (a nil dereference in the query goroutine, or an empty
+// result).  In the processor package every conversion of a SortExpr.Limit to a signed integer whose result is passed to
+// a function lies where the limit is known to fit (a dominating comparison with a constant that is at most MaxInt64).
+func c05LimitConversion(c *core.Ctx, r *core.Report) {
+	limitF := c.Field(pkgStructs, "SortExpr.Limit")
+	n := 0
+	for _, fn := range c.RepoFunctions() {
+		if core.FnPkgPath(fn) != core.ModPath+"/"+pkgProcessor {
+			continue
+		}
+		k := 0
+		for _, b := range fn.Blocks {
+			for _, in := range b.Instrs {
+				cv, ok := in.(*ssa.Convert)
+				if !ok {
+					continue
+				}
+				tb, ok := cv.Type().Underlying().(*types.Basic)
+				if !ok || tb.Info()&types.IsInteger == 0 || tb.Info()&types.IsUnsigned != 0 {
+					continue
+				}
+				ld, ok := cv.X.(*ssa.UnOp)
+				if !ok {
+					continue
+				}
+				fa, ok := ld.X.(*ssa.FieldAddr)
+				if !ok || core.FieldOfAddr(fa) != limitF {
+					continue
+				}
+				// passed on as a count?
+				passed := false
+				if cv.Referrers() != nil {
+					for _, u := range *cv.Referrers() {
+						if ci, ok := u.(ssa.CallInstruction); ok {
+							if _, isB := ci.Common().Value.(*ssa.Builtin); !isB {
+								passed = true
+							}
+						}
+						if _, ok := u.(*ssa.Phi); ok {
+							passed = true
+						}
+					}
+				}
+				if !passed {
+					continue
+				}
+				n++
+				k++
+				clamped := false
+				for _, b2 := range fn.Blocks {
+					for _, in2 := range b2.Instrs {
+						cmp, ok := in2.(*ssa.BinOp)
+						if !ok {
+							continue
+						}
+						l2, ok := cmp.X.(*ssa.UnOp)
+						if !ok {
+							continue
+						}
+						fa2, ok := l2.X.(*ssa.FieldAddr)
+						if !ok || core.FieldOfAddr(fa2) != limitF {
+							continue
+						}
+						if _, isK := cmp.Y.(*ssa.Const); !isK {
+							if _, isCv := cmp.Y.(*ssa.Convert); !isCv {
+								continue
+							}
+						}
+						known := core.BoolKnownAt(cmp, b)
+						switch cmp.Op {
+						case token.LSS, token.LEQ:
+							clamped = clamped || known == core.Yes
+						case token.GTR, token.GEQ:
+							clamped = clamped || known == core.No
+						}
+					}
+				}
+				r.Check(clamped, "BOUND", fmt.Sprintf("%s:row-limit-to-int#%d-is-clamped", shortFn(fn), k), c.Pos(cv.Pos()),
+					"the limit is known to fit in a signed integer where it is converted",
+					"an unsigned row limit is converted to a signed integer and handed on as a count without a clamp: `sort 0` (no limit) is stored as the maximum unsigned value and becomes -1, which selects the small-result path with a negative size (the query goroutine dereferences nil and takes the server down)")
+			}
+		}
+	}
+	r.Floor("BOUND", "row limits converted to a signed count in the processors", n, 1)
 }
